@@ -138,7 +138,7 @@ def main():
                 props = cl if allp else [p for p in cl if p == own]
                 return run_seed(sid, props)
             table = {}
-            with cf.ThreadPoolExecutor(12) as ex:
+            with cf.ThreadPoolExecutor(14) as ex:
                 for r in ex.map(job, ids):
                     own = r["seed"].split("-")[0]
                     caught = [p for p, c in r["checks"].items() if c["rc"] == 1]
